@@ -285,7 +285,8 @@ def _tmpl_uni(n):
 
 L_TRUSTS = [None, None, [(0, 1, 1)], (0, 1, "positive"), [(0, 1, -1)], [(0, 1, "negative")], [[0, 1, 1]], [(1, 0, 1)],
             [(0, 1, 1), (1, 0, 1)], [(0, 0, 1)], [(0, 1, 2)], [(0, 1, 1), (0, 1, 1)], [(0, 1, 1), (0, 2, -1)], [(0, 5, 1)]]
-L_DOMS = [None, None, [(0, 1)], (0, 1), [(1, 0)], [(0, 1), (1, 0)], [(0, 5)], [[0, 1]]]
+L_DOMS = [None, None, [(0, 1)], (0, 1), [(1, 0)], [(0, 1), (1, 0)], [(0, 5)], [[0, 1]],
+          [(0, 1), (1, 2), (2, 0)], [(0, 0)], [(0, 1), (1, 1)], [(0, 1), (1, 2)]]
 L_JM = [None, None, [(0, 1)], (0, 1), [(0, 9)]]
 L_JU = [None, None, None, ([0, 1], "valley"), [([0], "peak")], [([0, 1], "peak")], [([0, 0], "peak")], [([0], "up")],
         [([7], "peak")], [([1, 2], "valley")], [([0], "valley"), ([1, 0, 1], "peak")], ([0, 9], "peak")]
@@ -295,7 +296,7 @@ L_REGS = [None, None, ("torsion", 0.1, 0.2), [("laplacian", 0.1, 0.0)], [("torsi
 
 
 def gen_lattice(rng):
-  sizes = rng.choice([[2], [2, 2], [2, 2], [3, 3], [3, 2], [2, 3, 2], [3, 3, 3], (2, 2), (3, 3), [1, 2]])
+  sizes = rng.choice([[2], [2, 2], [2, 2], [3, 3], [3, 2], [2, 3, 2], [3, 3, 3], (2, 2), (3, 3), [1, 2], [], ()])
   n = len(sizes)
   b = rng.choice(L_BOUNDS)
   reg = rng.choice(L_REGS)
@@ -372,8 +373,8 @@ def gen_linear(rng):
                        [v] * (n + 1), [v] * (n - 1), [1.0 - v] * n])
   return dict(num_input_dims=n, units=rng.choice([1, 1, 2]),
               monotonicities=rng.choice([None, 1, "increasing", "decreasing", [1] * n, [1, 0, -1][:n], [-1] * n, [1] * (n + 1),
-                                         tuple([1] * n), "peak"]),
-              monotonic_dominances=rng.choice(L_DOMS), range_dominances=rng.choice(L_DOMS[:5]),
+                                         tuple([1] * n), "peak", [None] * n, [None, None, 1][:n]]),
+              monotonic_dominances=rng.choice(L_DOMS), range_dominances=rng.choice(L_DOMS[:5] + L_DOMS[8:]),
               input_min=bounds(0.0), input_max=bounds(1.0), use_bias=rng.choice([True, False]),
               normalization_order=rng.choice([None, None, 1, 2, "inf", 0.5]),
               dtype=rng.choice(["float32", "float32", "float64"]))
@@ -381,7 +382,7 @@ def gen_linear(rng):
 
 def gen_categorical(rng):
   b = rng.choice(L_BOUNDS)
-  return dict(num_buckets=rng.choice([1, 2, 3, 4]), units=rng.choice([1, 1, 2]), output_min=b[0], output_max=b[1],
+  return dict(num_buckets=rng.choice([1, 2, 3, 4, 0, -1]), units=rng.choice([1, 1, 2]), output_min=b[0], output_max=b[1],
               monotonicities=rng.choice([None, None, [(0, 1)], [[0, 1]], [(0, 1), (1, 2)], [(0, 1), (1, 0)],
                                          [(0, 1), (1, 2), (2, 1)], [(0, 1), (2, 3), (3, 2)], [(0, 0)], [(0, 7)], (0, 1), [(0, 1, 2)],
                                          [(0, 1), (0, 2), (1, 3), (2, 3)], [(0, 1), (1, 2), (2, 0)], [(0, 1), (1, 1)], [(2, 1), (1, 0)],
@@ -455,7 +456,8 @@ def _valid_linear(rng):
   same01 = allinc or mono in ([1, 1, -1][:n], [-1] * n, ["decreasing"] * n)
   k = rng.random()
   if allinc and k < 0.3:
-    c["monotonic_dominances"] = rng.choice([[(0, 1)], [(1, 0)], [(0, 1), (0, 1)]])
+    c["monotonic_dominances"] = rng.choice([[(0, 1)], [(1, 0)], [(0, 1), (0, 1)], [(0, 1), (1, 2)][:n - 1], [(0, 1), (1, 2), (0, 2)][:2 * n - 3],
+                                            [(0, 1), (1, 2), (2, 0)][:n] if n == 3 else [(0, 0)]])
   elif same01 and k < 0.7:
     c["range_dominances"] = [(0, 1)]
     # the dimension 2 (n = 3) is outside the range dominance: empty range (input_min == input_max, the scaling
@@ -833,7 +835,10 @@ def run_must_reject(ctx):
   cycle behind a root or in front of a tail, with repeated pairs), and the configurations whose late
   failure was repaired by f7753e0 / f995047 / 4a8f232: a joint unimodality with a dimension outside the
   lattice or with repeated dimensions, Linear input bounds of the wrong length or crossed on a layer
-  without any constraint. Acceptance (or another exception class) is an oracle failure."""
+  without any constraint; by 2ef7ec2 / 1f0b06a / 93797fc / 76984f9 / e215d06 / b6fcc7a: circular Linear dominance sets,
+  a range dominance on features with monotonicity None, empty lattice_sizes, num_buckets < 1, non-positive list
+  lengths of PWLCalibrationConstraints, and premade configs with an empty feature list / an empty lattice in an
+  explicit ensemble / an empty output_initialization. Acceptance (or another exception class) is an oracle failure."""
   import tensorflow_lattice as tfl
   from tensorflow_lattice.python import lattice_layer, pwl_calibration_layer, linear_layer
   from tensorflow_lattice.python import categorical_calibration_layer as ccl
@@ -944,16 +949,71 @@ def run_must_reject(ctx):
         ("LatticeConstraints", "joint-unimodality-repeated-dims",
          dict(lattice_sizes=ju_sizes, joint_unimodalities=good + [(list(range(ju_rank)) + [rep], "valley")])),
     ]
+    # ---- configurations whose late failure was repaired by 2ef7ec2 / 1f0b06a / 93797fc / 76984f9 / e215d06 / b6fcc7a
+    ln = rng.randint(3, 5)
+    lk = rng.randint(3, ln)
+    lverts = rng.sample(range(ln), lk)
+    lcyc = [(lverts[i], lverts[(i + 1) % lk]) for i in range(lk)]
+    if rng.random() < 0.4:
+      rest = [v for v in range(ln) if v not in lverts]
+      lcyc += [(v, rng.choice(lverts)) for v in rest]          # roots in front of the cycle
+    rng.shuffle(lcyc)
+    lself = [(i, i + 1) for i in range(rng.randint(0, ln - 2))] + [(ln - 1, ln - 1)]
+    lsign = rng.choice([1, -1])
+    lb = dict(input_min=[0.0] * ln, input_max=[float(rng.randint(1, 4))] * ln)
+    nonemono = [None] * ln if rng.random() < 0.5 else [None, None] + [rng.choice([0, 1])] * (ln - 2)
+    nk = rng.randint(2, 5)
+    badlen = [rng.choice([0.5, 1.0, 2.0]) for _ in range(nk)]
+    for i in rng.sample(range(nk), rng.randint(1, nk)):
+      badlen[i] = rng.choice([0.0, 0.0, -1.0])
+    cases += [
+        ("LinearConstraints", "circular-linear-dominances", dict(monotonicities=[1] * ln, monotonic_dominances=lcyc)),
+        ("LinearConstraints", "circular-linear-dominances", dict(monotonicities=[lsign] * ln, range_dominances=lcyc, **lb)),
+        ("Linear", "circular-linear-dominances", dict(num_input_dims=ln, monotonicities=[1] * ln,
+                                                      **{rng.choice(["monotonic_dominances", "range_dominances"]): lself}, **lb)),
+        ("LinearConstraints", "range-dominance-on-None-monotonicity",
+         dict(monotonicities=nonemono, range_dominances=[(0, 1)], **lb)),
+        ("Linear", "range-dominance-on-None-monotonicity",
+         dict(num_input_dims=ln, monotonicities=[None] * ln, range_dominances=[(1, 0)], **lb)),
+        ("Lattice", "empty-lattice-sizes", dict(lattice_sizes=rng.choice([[], ()]),
+                                                kernel_initializer=rng.choice(["zeros", "random_uniform_or_linear_initializer"]))),
+        ("LatticeConstraints", "empty-lattice-sizes", dict(lattice_sizes=[])),
+        ("LinearInitializer", "empty-lattice-sizes", dict(lattice_sizes=[], monotonicities=None, output_min=0.0, output_max=1.0)),
+        ("TorsionRegularizer", "empty-lattice-sizes", dict(lattice_sizes=(), l1=0.1)),
+        ("CategoricalCalibration", "zero-buckets", dict(num_buckets=rng.choice([0, 0, -1]),
+                                                       **rng.choice([{}, dict(output_min=1.0, output_max=2.0)]))),
+        ("PWLCalibrationConstraints", "non-positive-lengths",
+         dict(monotonicity=rng.choice([0, 1, -1]), convexity=rng.choice([1, -1, 0]), lengths=badlen)),
+        ("Premade", "empty-feature-configs", dict(kind=rng.choice(["lattice", "linear", "ensemble"]), features=0)),
+        ("Premade", "empty-lattice-in-ensemble", dict(kind="ensemble", features=2,
+                                                      lattices=rng.choice([[["f0", "f1"], []], [[], ["f0", "f1"], ["f1", "f0"]]]))),
+        ("Premade", "empty-output-initialization", dict(kind=rng.choice(["lattice", "linear", "ensemble"]), features=2,
+                                                        output_initialization=[])),
+    ]
+
+  def premade(kind, features, lattices="random", output_initialization=(0.0, 1.0)):
+    fcs = [tfl.configs.FeatureConfig("f%d" % i, pwl_calibration_input_keypoints=[0.0, 0.5, 1.0]) for i in range(features)]
+    oi = list(output_initialization)
+    if kind == "lattice":
+      return tfl.premade.CalibratedLattice(tfl.configs.CalibratedLatticeConfig(feature_configs=fcs, output_initialization=oi))
+    if kind == "linear":
+      return tfl.premade.CalibratedLinear(tfl.configs.CalibratedLinearConfig(feature_configs=fcs, output_initialization=oi))
+    return tfl.premade.CalibratedLatticeEnsemble(tfl.configs.CalibratedLatticeEnsembleConfig(
+        feature_configs=fcs, lattices=lattices if lattices != "random" else [["f0", "f1"], ["f1", "f0"]],
+        output_initialization=oi))
   ctors = {"Lattice": lattice_layer.Lattice, "LatticeConstraints": lattice_layer.LatticeConstraints,
            "PWLCalibration": pwl_calibration_layer.PWLCalibration, "Linear": linear_layer.Linear,
            "CategoricalCalibration": ccl.CategoricalCalibration,
-           "CategoricalCalibrationConstraints": ccl.CategoricalCalibrationConstraints}
+           "CategoricalCalibrationConstraints": ccl.CategoricalCalibrationConstraints,
+           "LinearConstraints": linear_layer.LinearConstraints, "LinearInitializer": lattice_layer.LinearInitializer,
+           "TorsionRegularizer": lattice_layer.TorsionRegularizer,
+           "PWLCalibrationConstraints": pwl_calibration_layer.PWLCalibrationConstraints, "Premade": premade}
   for layer, what, cfg in cases:
     ctx.count("must_reject:" + what)
     outcome, msg = "accepted", ""
     try:
       obj = ctors[layer](**cfg)
-      if hasattr(obj, "build") and layer not in ("LatticeConstraints", "CategoricalCalibrationConstraints"):
+      if hasattr(obj, "build") and layer in ("Lattice", "PWLCalibration", "Linear", "CategoricalCalibration"):
         if layer == "Lattice":
           obj.build((None, len(cfg["lattice_sizes"])))
         elif layer == "Linear":
@@ -980,10 +1040,187 @@ def tf_errors():
   return tf.errors.OpError
 
 
+# ------------------------------------------------------------------ streams of the two pinned findings F-C16-v / F-C16-w
+def _f32_same(a, b):
+  return bool(np.float32(a) == np.float32(b))
+
+
+def collapse_case(rng, which=None, dtype="float32"):
+  """One ACCEPTED configuration whose verified Python-float quantities (distinct keypoints, input_min < input_max,
+  output_min < output_max) coincide or vanish in float32. Returns dict(kind, args, dtype, witness)."""
+  which = which or rng.choice(["pwl_tiny_piece", "pwl_big_keypoints", "linear_tiny_range", "lattice_big_bounds",
+                               "lattice_tiny_bounds", "pwl_fn_tiny_range"])
+  tiny = rng.choice([1e-50, 1e-46, 2.0 ** -160, 3e-60])
+  big = rng.choice([1e8, 2.0 ** 27, 1e9, 3e10])
+  if which == "pwl_tiny_piece":
+    kp = rng.choice([[0.0, tiny, 1.0], [-1.0, 0.0, tiny], [-tiny, 0.0, 1.0]])
+    return dict(kind=which, dtype=dtype, args=dict(input_keypoints=kp, units=rng.choice([1, 2])),
+                witness=_f32_same(kp[0], kp[1]) or _f32_same(kp[1], kp[2]))
+  if which == "pwl_big_keypoints":
+    kp = [big, big + 1.0, big + 2.0]
+    return dict(kind=which, dtype=dtype, args=dict(input_keypoints=kp, kernel_initializer="equal_slopes", output_min=0.0,
+                                                   output_max=1.0),
+                witness=_f32_same(kp[0], kp[1]) or _f32_same(kp[1], kp[2]))
+  if which == "linear_tiny_range":
+    sign = rng.choice([1, -1])
+    return dict(kind=which, dtype=dtype, args=dict(num_input_dims=2, monotonicities=[sign, sign], range_dominances=[(0, 1)],
+                                                   input_min=[0.0, 0.0], input_max=[tiny, 1.0]),
+                witness=_f32_same(tiny, 0.0))
+  if which == "lattice_big_bounds":
+    return dict(kind=which, dtype=dtype, args=dict(lattice_sizes=[2, 2], output_min=big, output_max=big + 1.0,
+                                                   monotonicities=[1, 1], edgeworth_trusts=[(0, 1, "positive")]),
+                witness=_f32_same(big, big + 1.0))
+  if which == "lattice_tiny_bounds":
+    return dict(kind=which, dtype=dtype, args=dict(lattice_sizes=[2, 2], output_min=0.0, output_max=tiny, monotonicities=[1, 1],
+                                                   edgeworth_trusts=[(0, 1, "positive")], kernel_initializer="zeros"),
+                witness=_f32_same(tiny, 0.0))
+  return dict(kind=which, dtype=dtype, args=dict(keypoint_input_min=0.0, keypoint_input_max=tiny), witness=_f32_same(tiny, 0.0))
+
+
+def run_collapse_case(case):
+  """-> (stage, exception or None, values) ; stage in ctor / build / ok"""
+  import tensorflow as tf
+  import tensorflow_lattice as tfl
+  from tensorflow_lattice.python import conditional_pwl_calibration as cpc
+  kind, a, dt = case["kind"], dict(case["args"]), getattr(tf, case["dtype"])
+  try:
+    if kind.startswith("pwl_fn"):
+      v = cpc.pwl_calibration_fn(tf.constant([[0.0]], dtype=dt), keypoint_input_parameters=tf.zeros((1, 1, 2), dtype=dt),
+                                 keypoint_output_parameters=tf.zeros((1, 1, 4), dtype=dt), **a)
+      return "ok", None, [v.numpy()]
+    if kind.startswith("pwl"):
+      L = tfl.layers.PWLCalibration(dtype=dt, **a)
+    elif kind.startswith("linear"):
+      L = tfl.layers.Linear(dtype=dt, **a)
+    else:
+      L = tfl.layers.Lattice(dtype=dt, **a)
+  except Exception as e:  # pylint: disable=broad-except
+    return "ctor", e, []
+  try:
+    if kind.startswith("pwl"):
+      kp = a["input_keypoints"]
+      x = np.array([[kp[0]], [kp[1]], [(kp[1] + kp[2]) / 2]])
+      if a.get("units", 1) == 2:
+        x = np.concatenate([x, x], axis=1)
+      y = L(tf.constant(x, dtype=dt))
+      return "ok", None, [y.numpy(), L.kernel.numpy()]
+    if kind.startswith("linear"):
+      L.build((None, 2))
+      L.kernel.assign(tf.constant([[1.0], [2.0]], dtype=dt))
+      w = L.kernel.constraint(L.kernel)
+      return "ok", None, [w.numpy()]
+    L.build((None, 2))
+    if kind == "lattice_big_bounds":
+      L.kernel.assign(tf.constant([[a["output_min"]]] * 4, dtype=dt))
+    w = L.kernel.constraint(L.kernel)
+    return "ok", None, [w.numpy()]
+  except Exception as e:  # pylint: disable=broad-except
+    return "build", e, []
+
+
+def check_collapse(ctx, case):
+  import tensorflow as tf
+  stage, e, vals = run_collapse_case(case)
+  layer = {"pwl": "PWLCalibration", "lin": "Linear", "lat": "Lattice"}[case["kind"][:3]] if not case["kind"].startswith("pwl_fn") \
+      else "pwl_calibration_fn"
+  ctx.count("collapse:%s:%s:%s" % (case["kind"], case["dtype"], stage if e is None else stage + ":" + type(e).__name__))
+  ctx.case(sig=("collapse", case["kind"], case["dtype"]), nontrivial=True, sample=dict(stream="collapse", **case))
+  rec = dict(stream="collapse", layer=layer, cfg=repr(case))
+  # pinned: only a float32 run whose collapse witness holds can be the known finding
+  pred = "float32_collapse" if (case["dtype"] == "float32" and case["witness"]) else "other:collapse_control"
+  if e is not None:
+    if isinstance(e, ValueError) and not isinstance(e, tf.errors.OpError):
+      return     # rejected up front: fine for the property
+    ctx.fail("rejected_or_total", dict(layer=layer, stage=stage, exc=type(e).__name__, pred=pred), rec,
+             dict(exc=type(e).__name__, msg=exc_msg(e)))
+    return
+  if not _finite(vals):
+    ctx.fail("rejected_or_total", dict(layer=layer, stage="nonfinite", exc="nonfinite", pred=pred), rec,
+             dict(exc="nonfinite", msg="accepted configuration, non-finite output / kernel: %r" % [np.asarray(v).ravel()[:6].tolist() for v in vals]))
+
+
+def run_float32_collapse(ctx):
+  """F-C16-v: every template once in float32 (known finding) and once in float64 (control: must be finite wherever the
+  values are representable), then random magnitudes."""
+  kinds = ["pwl_tiny_piece", "pwl_big_keypoints", "linear_tiny_range", "lattice_big_bounds", "lattice_tiny_bounds",
+           "pwl_fn_tiny_range"]
+  import random as _r
+  det = _r.Random(0)
+  for k in kinds:
+    for dt in ("float32", "float64"):
+      if k == "pwl_fn_tiny_range" and dt == "float64":
+        continue      # pwl_calibration_fn builds float32 constants internally: no float64 form
+      check_collapse(ctx, collapse_case(det, k, dt))
+  for _ in range(ctx.n(12, 200)):
+    dt = ctx.rng.choice(["float32", "float32", "float64"])
+    c = collapse_case(ctx.rng, None, dt)
+    if c["kind"] == "pwl_fn_tiny_range":
+      c["dtype"] = "float32"
+    check_collapse(ctx, c)
+
+
+def tensor_keypoints_case(rng, kind=None):
+  kind = kind or rng.choice(["equal", "equal", "decreasing", "increasing"])
+  n = rng.randint(2, 5)
+  ks = sorted({rng.randint(-8, 8) / 2.0 for _ in range(n + 3)})[:max(2, n)]
+  if len(ks) < 2:
+    ks = [0.0, 1.0]
+  if kind == "equal":
+    i = rng.randrange(len(ks) - 1)
+    ks = ks[:i + 1] + [ks[i]] + ks[i + 1:]
+  elif kind == "decreasing":
+    ks = ks[::-1]
+  return dict(kind=kind, keypoints=[float(k) for k in ks], dtype=rng.choice(["float32", "float64"]), units=rng.choice([1, 2]))
+
+
+def check_tensor_keypoints(ctx, case):
+  """F-C16-w: PWLCalibration(input_keypoints=<tf.Tensor>): the tensor branch of verify_hyperparameters checks rank and
+  size only. Accepted ⇒ finite outputs at and between the keypoints."""
+  import tensorflow as tf
+  import tensorflow_lattice as tfl
+  ks = case["keypoints"]
+  dt = getattr(tf, case["dtype"])
+  ctx.case(sig=("tensor_kp", case["kind"], case["dtype"], len(ks)), nontrivial=True, sample=dict(stream="tensor_keypoints", **case))
+  rec = dict(stream="tensor_keypoints", layer="PWLCalibration", cfg=repr(case))
+  strictly = all(a < b for a, b in zip(ks, ks[1:]))
+  pred = "tensor_keypoints_unverified" if not strictly else "other:tensor_keypoints_control"
+  try:
+    L = tfl.layers.PWLCalibration(input_keypoints=tf.constant(ks, dtype=dt), units=case["units"], dtype=dt)
+    xs = sorted(set(ks + [(a + b) / 2 for a, b in zip(ks, ks[1:])]))
+    x = np.array([[v] * case["units"] for v in xs])
+    y = L(tf.constant(x, dtype=dt)).numpy()
+  except Exception as e:  # pylint: disable=broad-except
+    ctx.count("tensor_kp:%s:%s" % (case["kind"], type(e).__name__))
+    if isinstance(e, ValueError) and not isinstance(e, tf.errors.OpError):
+      if strictly:
+        ctx.fail("rejected_or_total", dict(layer="PWLCalibration", stage="ctor", exc="ValueError", pred="other:valid_tensor_keypoints_rejected"),
+                 rec, dict(exc="ValueError", msg=exc_msg(e)))
+      return
+    ctx.fail("rejected_or_total", dict(layer="PWLCalibration", stage="build", exc=type(e).__name__, pred=pred), rec,
+             dict(exc=type(e).__name__, msg=exc_msg(e)))
+    return
+  ctx.count("tensor_kp:%s:%s" % (case["kind"], "finite" if np.all(np.isfinite(y)) else "nonfinite"))
+  if not np.all(np.isfinite(y)):
+    ctx.fail("rejected_or_total", dict(layer="PWLCalibration", stage="nonfinite", exc="nonfinite", pred=pred), rec,
+             dict(exc="nonfinite", msg="tensor keypoints %r accepted, output %r" % (ks, y.ravel()[:6].tolist())))
+
+
+def run_tensor_keypoints(ctx):
+  import random as _r
+  det = _r.Random(1)
+  check_tensor_keypoints(ctx, dict(kind="equal", keypoints=[0.0, 0.0, 1.0], dtype="float32", units=1))
+  check_tensor_keypoints(ctx, dict(kind="decreasing", keypoints=[1.0, 0.0], dtype="float32", units=1))
+  check_tensor_keypoints(ctx, dict(kind="increasing", keypoints=[0.0, 0.5, 1.0], dtype="float64", units=2))
+  for _ in range(ctx.n(12, 200)):
+    check_tensor_keypoints(ctx, tensor_keypoints_case(ctx.rng))
+
+
 def run(ctx):
   import tensorflow as tf
   tf.keras.utils.set_random_seed(ctx.seed + 17) if hasattr(tf.keras.utils, "set_random_seed") else None
   run_must_reject(ctx)
+  run_float32_collapse(ctx)
+  run_tensor_keypoints(ctx)
   run_tables(ctx)
   run_canon(ctx)
   run_layers(ctx)
@@ -1005,6 +1242,13 @@ def replay(ctx, failure):
     return
   if stream == "must_reject":
     run_must_reject(ctx)
+    return
+  if stream == "collapse":
+    c = ast.literal_eval(case["cfg"])
+    check_collapse(ctx, c)
+    return
+  if stream == "tensor_keypoints":
+    check_tensor_keypoints(ctx, ast.literal_eval(case["cfg"]))
     return
   cfg = ast.literal_eval(case["cfg"])
   if stream == "table":
